@@ -46,6 +46,7 @@ RULE = ("scripts = TLC-enumerated sequences of L rounds (send n packets with a d
 PKG = "pkg/gcc"
 SHARED = os.path.join(vlib.VERIF, "harness", "pkg", "gcc", "zz_verif_gccshared_test.go.tpl")
 COMMON = os.path.join(vlib.VERIF, "harness", "common", "zz_verif_common_test.go.tpl")
+GROW = "zz_verif_gccgrow_test.go"
 
 CONFIGS = [
     {"defaults": True, "init": 10000, "min": 5000, "max": 50000000},
@@ -70,6 +71,8 @@ def _overlay(ctx, level, safe):
         os.path.join(rel, "zz_verif_gccshared_test.go"): (SHARED, pkgname),
         os.path.join(rel, "zz_verif_common_test.go"): (COMMON, pkgname),
     }
+    if rel == "pkg/gcc":
+        m[os.path.join(rel, GROW)] = os.path.join(vlib.VERIF, "harness", rel, GROW)
     return rel, vlib.overlay(ctx, m, name="overlay-%s.json" % safe)
 
 
@@ -288,6 +291,150 @@ def conc_script(rng, conf, pacer, fb, feeders=2, writes=4):
     return sc
 
 
+
+# ------------------------------------------------------------------------------------------ specification growth
+# The discrete stages C16 abstracts (arrival groups, rate window, overuse hysteresis, controller state) have their own
+# modules GccGroups.tla / GccOveruse.tla.  They describe behaviour the property does not state: a divergence of the real
+# code from them is printed as a NOTE and recorded under coverage["growth_notes"]; it never changes the verdict.  Only a
+# panic / hang of the real stage (which the property does forbid) is a violation.
+
+def groups_scripts_from(beh):
+    scripts = []
+    for i, b in enumerate(beh):
+        acks = [{"id": a["id"], "dep": a["dep"], "arr": a["arr"], "size": a["size"]} for a in b]
+        far = max([a["dep"] for a in acks] + [a["arr"] for a in acks]) + 1000000
+        acks.append({"id": len(acks) + 1, "dep": far, "arr": far + 100000, "size": 1})   # closes the last group
+        scripts.append({"lvl": "groups", "batch": (1, 2, 0)[i % 3], "acks": acks})
+    return scripts
+
+
+def random_groups_script(rng, n):
+    dep, arr, acks = 100000, 300000, []
+    for i in range(n):
+        q = rng.random()
+        if q < 0.08:
+            a = -1
+        else:
+            dep += rng.choice([0, 1, 300, 2500, 4999, 5000, 5001, 7000, 20000, -1, -3000])
+            arr += rng.choice([0, 0, 1, 250, 2500, 4999, 5000, 5001, 7000, 30000, -1, -250, -6000])
+            a = arr
+        acks.append({"id": i + 1, "dep": dep, "arr": a, "size": rng.choice([0, 100, 1200])})
+    return {"lvl": "groups", "batch": rng.choice([1, 3, 7, 0]), "acks": acks}
+
+
+def random_rate_script(rng, n):
+    arr, acks = 1000, []
+    for i in range(n):
+        if rng.random() < 0.1:
+            a = -1
+        else:
+            arr += rng.choice([0, 0, 1, 1, 2, 5, 20, 100, 250, 499, 500, 501, 1200, -1, -3, -40])
+            a = arr
+        acks.append({"id": i + 1, "dep": 0, "arr": a, "size": rng.choice([0, 1, 100, 1200, 1460])})
+    return {"lvl": "rate", "batch": rng.choice([1, 4, 0]), "acks": acks}
+
+
+def random_od_script(rng, n):
+    steps, nd = [], 0
+    for i in range(n):
+        nd += 1
+        th = rng.choice([6000, 12500, 12500, 30000, 600000])
+        q = th // min(nd, 60)
+        est = rng.choice([q + 1, q + 1, q + 40, q, 0, -q, -(q + 1), rng.randrange(-3 * q - 5, 3 * q + 5)])
+        steps.append({"est": est, "th": th, "delta": rng.choice([1, 3, 4, 5, 6, 11, 21]) * 1000000})
+    return {"lvl": "od", "steps": steps}
+
+
+_GROWTH = re.compile(r'<<\s*"GROWTH",\s*(\d+),\s*"([A-Za-z-]+)"')
+
+
+def grow_batch(ctx, scripts, tag):
+    if not scripts:
+        return
+    safe = re.sub(r"[^A-Za-z0-9_.-]", "_", tag)
+    rel, ov = _overlay(ctx, "bwe", safe)
+    inp = ctx.path("%s-%s.in" % (ctx.pid, safe))
+    outp = ctx.path("%s-%s.trace" % (ctx.pid, safe))
+    vlib.write_ndjson(inp, scripts)
+    rc, out = _go(ctx, rel, ov, "TestVerifGccGrowExec", inp, outp, 1)
+    events = vlib.read_ndjson(outp) if os.path.exists(outp) else []
+    g = ctx.cov.setdefault("growth", {"scripts": 0, "events": 0, "groups_emitted": 0, "rates": 0, "rates_undefined": 0,
+                                      "od_samples": 0, "od_overuse": 0, "od_underuse": 0, "diverging_traces": {}})
+    g["scripts"] += len(scripts)
+    if rc != 0:   # the property does state that feeding feedback never panics / blocks
+        nres = sum(1 for e in events if e.get("a") == "reset")
+        vlib.report_violation(ctx, _crash_what(tag, out), {
+            "kind": tag, "level": "grow", "script": scripts[nres - 1] if 0 < nres <= len(scripts) else None,
+            "go_output": out[-6000:]})
+        return
+    v = vlib.validate(ctx, "Trace_GccGrow.tla", outp, timeout=1800)
+    if v.hw != v.n + 1 or "Error:" in v.out:
+        raise vlib.Infra("growth trace validator did not consume the trace (%s):\n%s" % (tag, v.out[-2500:]))
+    g["events"] += v.n
+    for e in events:
+        if e["a"] == "gbatch":
+            g["groups_emitted"] += len(e["out"])
+        elif e["a"] == "rbatch":
+            g["rates"] += len(e["out"])
+            g["rates_undefined"] += sum(1 for x in e["out"] if x <= -2147483647)
+        elif e["a"] == "od":
+            g["od_samples"] += 1
+            g["od_overuse"] += e["use"] == "overuse"
+            g["od_underuse"] += e["use"] == "underuse"
+    notes = ctx.cov.setdefault("growth_notes", [])
+    first = {}
+    for m in _GROWTH.finditer(v.out):
+        kind = m.group(2)
+        g["diverging_traces"][kind] = g["diverging_traces"].get(kind, 0) + 1
+        if kind not in first:
+            txt = v.out[m.start():m.start() + 1200]
+            end = txt.find(">>\n<<")
+            first[kind] = (int(m.group(1)), " ".join((txt[:end + 2] if end > 0 else txt).split())[:700])
+    traces = vlib.split_traces(events)
+    for kind, (line, txt) in sorted(first.items()):
+        if any(n.startswith("growth/%s:" % kind) for n in notes):
+            continue
+        tr, off = vlib.trace_at(events, line)
+        idx = max(i for i, (start, _) in enumerate(traces) if start + 1 <= line)
+        notes.append("growth/%s: real code differs from the growth specification; first: %s; event %s; script %s" % (
+            kind, txt, json.dumps(tr[off])[:400], json.dumps(scripts[idx])[:600]))
+    ctx.log("(T) %s: %d growth traces / %d events validated in %.1fs, diverging: %s" % (
+        tag, len(traces), v.n, v.wall, dict((k, n) for k, n in g["diverging_traces"].items()) or "none"))
+
+
+def growth(ctx, rng):
+    quick = ctx.quick
+    vlib.model_check(ctx, "MC_GccOveruse.tla", vlib.cfg_variant(ctx, "MC_GccOveruse.cfg", {"MaxSteps": 5 if quick else 7}),
+                     workers=2 if quick else 6, note="overuse hysteresis + controller state, all sample sequences")
+    if not quick:
+        vlib.model_check(ctx, "MC_GccOveruse.tla", "MC_GccOveruse_memoryless.cfg", workers=2,
+                         expect_violation="Action property MemorylessNoDirectIncrease is violated",
+                         note="negative control: applying the table from `increase` every time allows decrease -> increase")
+        vlib.model_check(ctx, "MC_GccGroups.tla", "MC_GccGroups.cfg", workers=8, timeout=1800,
+                         note="arrival groups + rate window, all sequences of 4 acks on a 5x6 grid")
+    scripts = groups_scripts_from(vlib.generate(
+        ctx, "Gen_GccGroups.tla", vlib.cfg_variant(ctx, "Gen_GccGroups.cfg", {"L": 2 if quick else 3, "Mode": '"groups"'})))
+    ods = vlib.generate(ctx, "Gen_GccOveruse.tla", vlib.cfg_variant(ctx, "Gen_GccOveruse.cfg", {"L": 2 if quick else 3}))
+    scripts += [{"lvl": "od", "steps": b} for b in ods]
+    if not quick:
+        rates = vlib.generate(ctx, "Gen_GccGroups.tla", vlib.cfg_variant(ctx, "Gen_GccGroups.cfg", {"L": 4, "Mode": '"rate"'}))
+        scripts += [{"lvl": "rate", "batch": (1, 0)[i % 2],
+                     "acks": [{"id": a["id"], "dep": 0, "arr": a["arr"], "size": a["size"]} for a in b]}
+                    for i, b in enumerate(rates)]
+    n = 60 if quick else 1500
+    scripts += [random_groups_script(rng, 40) for _ in range(n)]
+    scripts += [random_rate_script(rng, 40) for _ in range(n)]
+    scripts += [random_od_script(rng, 90) for _ in range(n // 3)]
+    grow_batch(ctx, scripts, "GROW")
+    g = ctx.cov.get("growth", {})
+    if g.get("rates_undefined"):
+        ctx.cov.setdefault("growth_notes", []).append(
+            "growth/rate-undefined: rateCalculator handed int(bits / 0 s) to onRateUpdate %d times (window of one packet or "
+            "equal arrival times: int(+Inf) / int(NaN), not defined by the Go specification, MinInt64 on amd64); the "
+            "specification leaves that output undefined" % g["rates_undefined"])
+    for note in ctx.cov.get("growth_notes", []):
+        print("NOTE: property=%s %s" % (ctx.pid, note), flush=True)
+
 # ------------------------------------------------------------------------------------------ run
 
 def run(ctx):
@@ -338,6 +485,7 @@ def run(ctx):
         run_batch(ctx, ls, "T-loss", par=16)
         run_batch(ctx, [conc_script(rng, c % 4, "rec", FBS[c % 2], feeders=3, writes=4) for c in range(24)], "T-conc-race",
                   par=4, race=True)
+    growth(ctx, rng)
     inc = getattr(ctx, "inconclusive", 0)
     ctx.cov["inconclusive_scripts"] = inc
     if inc > max(3, ctx.cov["evaluations"] // 50):
@@ -360,6 +508,9 @@ def replay(ctx, path):
     rep = json.load(open(path))
     scripts = vlib.replay_scripts(path)
     for sc in scripts:
+        if sc.get("lvl"):
+            grow_batch(ctx, [sc], "replay-grow")
+            continue
         run_batch(ctx, [sc], "replay", level="cc" if sc.get("level") == "cc" else "bwe", par=1,
                   race="race" in (rep.get("kind") or ""))
     return vlib.finish(ctx, "model_checking", RULE)
